@@ -75,7 +75,7 @@ def removeData (nm : Bytes) (i : Nat) : Msg → Option Msg
     | none => none
     | some f =>
       match f.removeItem i with
-      | none => none
+      | none => if f.count = 0 then some (.mk w (removeField nm fs)) else none   -- `mf->IsEmpty() ? RemoveName(..) : ret`
       | some f' => if f'.count = 0 then some (.mk w (removeField nm fs)) else some (.mk w (upsertField nm f' fs))
 
 /-- `Message::RemoveName` -/
